@@ -28,6 +28,8 @@ def main(argv=None) -> int:
     except ModuleNotFoundError:
         print(f"ANALYSIS-ERROR property={pid}: no checker")
         return 2
+    from .props import share
+    share._running.append((pid, a.tier))     # the property being checked is "running": borrowing it back from a rule it borrows from is a cycle
     return core.run(pid, a.tier, lambda ctx: mod.check(ctx), getattr(mod, "LEVEL", "other"), a.replay)
 
 
